@@ -249,3 +249,77 @@ Fixpoint sc2_run (h : shared2) (os : list sc_op) : list (nat * report) :=
   end.
 
 Definition sc2_events (os : list sc_op) : list (nat * status) := snd (rep_run [] (sc2_run shared2_0 os)).
+
+(* ---- a faulting watcher: commit-then-notify vs notify-then-commit ---------------------------------------
+   fsm.transition sets m.current BEFORE it calls onTransition.  If a watcher faults (panics) during the
+   delivery and the reporting goroutine survives (reporter.mu is released by the deferred Unlock), the
+   state machine has already moved: a fault changes nothing in [fsm_step] — the harness runs part of its
+   scripts with a watcher that panics after recording and the model is the SAME function.  For contrast
+   (NOT the code): notify-then-commit, where a faulting delivery leaves the status stale. *)
+Definition fsm_step_notify_first (cur : status) (rf : report * bool) : status * option status :=
+  let '(c', e) := fsm_step cur (fst rf) in ((if snd rf then cur else c'), e).
+
+Fixpoint fsm_run_notify_first (cur : status) (rs : list (report * bool)) : list status :=
+  match rs with
+  | [] => []
+  | rf :: rs' =>
+      let '(cur', e) := fsm_step_notify_first cur rf in
+      match e with Some s => s :: fsm_run_notify_first cur' rs' | None => fsm_run_notify_first cur' rs' end
+  end.
+
+(* ---- instance identities: Graph.createReceiver / createProcessor / createExporter / createConnector ------
+   g.instanceIDs maps a node to the InstanceID its status is reported under.  A receiver / exporter node is
+   shared by all pipelines of one signal that name the component, a connector node by all pairs of
+   pipelines of one (exporter signal, receiver signal) pair: when the node already exists the pipeline(s)
+   are ADDED to its InstanceID (WithPipelines returns a new InstanceID, which is stored back); otherwise a
+   new InstanceID naming the pipeline(s) is stored.  Pipelines are nats (signal * 10 + name, < 30), components c < 10; a key
+   identifies the node.  (A processor node is per pipeline; creating the same one twice panics in AddNode,
+   so it never meets an existing entry and the union below is never exercised for it.) *)
+Inductive inst_op :=
+| IRecv (p c : nat) | IProc (p c : nat) | IExp (p c : nat) | IConn (pe pr c : nat).
+
+Definition psignal (p : nat) : nat := Nat.div p 10.
+
+Definition ikey (o : inst_op) : nat :=
+  match o with
+  | IRecv p c => 1000 + c * 100 + psignal p
+  | IProc p c => 2000 + c * 100 + p
+  | IExp p c => 3000 + c * 100 + psignal p
+  | IConn pe pr c => 4000 + c * 100 + psignal pe * 10 + psignal pr
+  end.
+
+Definition ipipes (o : inst_op) : list nat :=
+  match o with
+  | IRecv p _ | IProc p _ | IExp p _ => [p]
+  | IConn pe pr _ => [pe; pr]
+  end.
+
+Definition imap := list (nat * list nat).
+
+Fixpoint iget (k : nat) (m : imap) : option (list nat) :=
+  match m with
+  | [] => None
+  | (k', v) :: r => if Nat.eqb k k' then Some v else iget k r
+  end.
+
+Fixpoint iset (k : nat) (v : list nat) (m : imap) : imap :=
+  match m with
+  | [] => [(k, v)]
+  | (k', v') :: r => if Nat.eqb k k' then (k', v) :: r else (k', v') :: iset k v r
+  end.
+
+(* addPipelines: the set of pipelines (sorted + compacted in Go; a duplicate-free list here) *)
+Definition addp (ps : list nat) (p : nat) : list nat := if existsb (Nat.eqb p) ps then ps else ps ++ [p].
+
+Definition inst_step (m : imap) (o : inst_op) : imap :=
+  match iget (ikey o) m with
+  | Some ps => iset (ikey o) (fold_left addp (ipipes o) ps) m        (* WithPipelines, stored back *)
+  | None => iset (ikey o) (fold_left addp (ipipes o) []) m            (* NewInstanceID *)
+  end.
+
+Definition inst_run (os : list inst_op) : imap := fold_left inst_step os [].
+
+Definition names (m : imap) (k p : nat) : bool :=
+  match iget k m with Some ps => existsb (Nat.eqb p) ps | None => false end.
+
+Definition inst_pairs (m : imap) : list (nat * nat) := flat_map (fun kv => map (fun p => (fst kv, p)) (snd kv)) m.
